@@ -123,8 +123,8 @@ structure AgentCfg where
   /-- `action_space.action_map`: index → action (iterated by a dict comprehension) -/
   actionMap : Assoc Nat ActionCfg := []
   rewards : List RewardCfg := []
-  /-- `agent_settings`: handed to a pydantic schema; values are tokens; read by key -/
-  settings : Assoc String String := []
+  /-- `agent_settings`: handed wholesale to a pydantic schema (a record); canonical token -/
+  settings : String := ""
 deriving DecidableEq, Repr
 
 structure Scenario where
@@ -195,7 +195,7 @@ structure AgentInv where
   /-- action `i` for `i < len(action_map)`: what `action_map[i]` holds -/
   actions : List (Option ActionCfg)
   rewards : List RewardCfg
-  settings : List (String × Option String)
+  settings : String
 deriving DecidableEq, Repr
 
 structure Inventory where
@@ -442,7 +442,7 @@ def actionsOf (m : Assoc Nat ActionCfg) : List (Option ActionCfg) :=
 
 def agentOf (a : AgentCfg) : AgentInv :=
   { ref := a.ref, type := a.type, team := a.team, actions := actionsOf a.actionMap, rewards := a.rewards,
-    settings := (keys a.settings).map fun k => (k, alookup k a.settings) }
+    settings := a.settings }
 
 /-- `game.agents[agent_cfg["ref"]] = new_agent`: a later agent of the same ref replaces the earlier one in place. -/
 def putAgent (acc : List AgentInv) (a : AgentInv) : List AgentInv :=
@@ -474,9 +474,9 @@ def declaredPorts (num : Nat) (m : Assoc Nat IfCfg) : List Nic :=
     | some c => { name := none, ip := some c.ip, mask := some (c.mask.getD defaultMask) }
     | none => loopNic none
 
-/-- host NIC `k ≥ 2`: the entry of `network_interfaces` with key `k`. -/
-def declaredNics (m : Assoc Nat IfCfg) : List (Option Nic) :=
-  (List.range m.length).map fun i => (alookup (i + 2) m).map nicOf
+/-- extra host NICs: the entries of `network_interfaces` become NIC 2, 3, … in ascending key order (the configuration pages
+do not say what the keys mean; every shipped file uses 2, 3, … so that key = NIC number: `C20_nic_number_is_key`). -/
+def declaredNics (m : Assoc Nat IfCfg) : List Nic := (sortByKey m).map fun e => nicOf e.2
 
 /-- every piece of software the node is asked to carry (pre-installed system software, the configured services and
 applications, the FTP client a database service brings along), once, with the options of its own entry. -/
@@ -502,7 +502,7 @@ def declaredNode (n : NodeCfg) : NodeInv :=
     dns := n.dns, gateway := n.gateway,
     nics := match n.kind with
       | .computer | .server =>
-        { name := none, ip := n.ip, mask := some (n.mask.getD defaultMask) } :: (declaredNics n.nics).filterMap id
+        { name := none, ip := n.ip, mask := some (n.mask.getD defaultMask) } :: declaredNics n.nics
       | .switch => List.replicate (n.numPorts.getD defaultSwitchPorts) { name := none, ip := none, mask := none }
       | .router => declaredPorts (n.numPorts.getD defaultRouterPorts) n.ports
       | .firewall => [declaredFwNic n "external_port" "external", declaredFwNic n "internal_port" "internal",
